@@ -285,9 +285,16 @@ class HTTPConnectionPool(ConnectionPool, RequestMethods):
             pass  # Oh well, we'll create a new connection then
 
         # If this is a persistent connection, check if it got disconnected
-        if conn and is_connection_dropped(conn):
-            log.debug("Resetting dropped connection: %s", self.host)
-            conn.close()
+        if conn:
+            try:
+                dropped = is_connection_dropped(conn)
+            except BaseException:
+                # The connection has left the pool: don't abandon it with its socket open.
+                conn.close()
+                raise
+            if dropped:
+                log.debug("Resetting dropped connection: %s", self.host)
+                conn.close()
 
         return conn or self._new_conn()
 
